@@ -141,8 +141,9 @@ def check_separator_agreement(ck, loops):
     listed = {p for l in loops for p in l.params}
     for c, sep in seps:
         fi, sinks, sloops = analyse(ck.repo, [ord(ch) for ch in sep], SANITIZERS)
-        covered = [s for s in sinks if s.kind == "attr" and isinstance(s.value, ast.Name) and s.value.id in listed]
-        ok = bool(sloops) and bool(covered) and not any(s.value_tainted for s in covered)
+        textp = set(text_params(fi))
+        covered = [s for s in sinks if s.kind == "attr" and isinstance(s.value, ast.Name) and (s.value.id in listed or (not listed and s.value.id in textp))]
+        ok = bool(covered) and not any(s.value_tainted for s in covered)
         ck.ob("C25.separator-agreement", pc, c, ok, "the separator %r the request-side parser splits cookies on is detected by set_cookie's attribute check (for the %d listed text attributes)" % (sep, len(covered)))
 
 
@@ -375,11 +376,24 @@ def check_attr_table(ck, fi):
 def check_emit(ck):
     fl = F(ck, WEB, RH + ".flush")
     cfg = fl.cfg
-    loops = cfg.stmt_nodes(lambda n: n.kind == "for" and JAR in q.paths_in(n.ast.iter))
+    def jar_view(e):
+        """``e`` with locals looked through and ``getattr(self, "_new_cookie", <default>)`` read as the attribute"""
+        e = expand_locals(fl, e)
+
+        class G(ast.NodeTransformer):
+            def visit_Call(self, c):
+                c = self.generic_visit(c)
+                if q.dotted(c.func) == "getattr" and len(c.args) >= 2 and q.dotted(c.args[0]) == "self" and isinstance(c.args[1], ast.Constant) and c.args[1].value == "_new_cookie":
+                    return ast.copy_location(ast.Attribute(value=ast.Name(id="self", ctx=ast.Load()), attr="_new_cookie", ctx=ast.Load()), c)
+                return c
+
+        return G().visit(e)
+
+    loops = cfg.stmt_nodes(lambda n: n.kind == "for" and JAR in q.paths_in(jar_view(n.ast.iter)))
     ck.floor("C25.emit", len(loops), 1, "loops over self._new_cookie in flush")
     for l in loops:
-        it = l.ast.iter
-        ck.ob("C25.emit", fl, it, q.is_call(it, JAR + ".values") and not it.args, "flush iterates over every morsel of the jar (self._new_cookie.values())")
+        it = jar_view(l.ast.iter)
+        ck.ob("C25.emit", fl, l.ast.iter, q.is_call(it, JAR + ".values") and not it.args, "flush iterates over every morsel of the jar (self._new_cookie.values())")
         tgt = l.ast.target.id if isinstance(l.ast.target, ast.Name) else None
         emits = [c for st in l.ast.body for c in q.calls(st) if isinstance(c.func, ast.Attribute) and q.dotted(c.func.value) == "self" and c.func.attr in ("add_header", "set_header")]
         if not emits:
@@ -403,10 +417,25 @@ def check_emit(ck):
     def transfer(n, val):
         return True if n.id in loop_ids else val
 
-    seen = explore(cfg, False, transfer, lambda t: t == has, follow_exc=False)
+    def absent_fact(text, pol):
+        """a branch fact saying that no cookie jar exists: hasattr(..) false, or <the jar read with a None default> is None"""
+        if text == has:
+            return not pol
+        try:
+            e = ast.parse(text, mode="eval").body
+        except SyntaxError:
+            return False
+        if isinstance(e, ast.Compare) and len(e.ops) == 1 and isinstance(e.ops[0], ast.Is) and isinstance(e.comparators[0], ast.Constant) and e.comparators[0].value is None:
+            return pol and q.dotted(jar_view(e.left)) == JAR
+        return False
+
+    def tracked(text):
+        return text == has or absent_fact(text, True)
+
+    seen = explore(cfg, False, transfer, tracked, follow_exc=False)
     for node, c in wh:
         for facts, emitted in sorted(seen.get(node.id, ()), key=repr):
-            ok = emitted or (has, False) in facts
+            ok = emitted or any(absent_fact(t_, p_) for t_, p_ in facts)
             ck.ob("C25.emit", fl, c, ok, "on every path to write_headers the cookies were emitted, unless no cookie was ever set", construct="header block written before the cookies are emitted")
 
 
